@@ -164,6 +164,7 @@ func (f *File) GetDirectoryHeader() ([]byte, error) {
 		ExtraLen:         uint16(len(f.Extra)),
 		CommentLen:       uint16(len(f.Comment)),
 	}
+	extraField := f.Extra
 	if f.CompressedSize >= uint32Max || f.UncompressedSize >= uint32Max || f.Offset >= uint32Max {
 		hdr.CompressedSize = uint32Max
 		hdr.UncompressedSize = uint32Max
@@ -175,19 +176,38 @@ func (f *File) GetDirectoryHeader() ([]byte, error) {
 			CompressedSize:   f.CompressedSize,
 			Offset:           f.Offset,
 		}
+		// the new record replaces one the entry may have carried before, and
+		// f.Extra stays as it was so that a second call emits the same bytes
 		b := bytes.NewBuffer(make([]byte, 0, zip64ExtraLen+4+len(f.Extra)))
 		_ = binary.Write(b, binary.LittleEndian, extra)
-		b.Write(f.Extra)
-		f.Extra = b.Bytes()
-		hdr.ExtraLen = uint16(b.Len())
+		b.Write(withoutZip64Extra(f.Extra))
+		extraField = b.Bytes()
+		hdr.ExtraLen = uint16(len(extraField))
 		hdr.ReaderVersion = zip45
 	}
-	b := bytes.NewBuffer(make([]byte, 0, directoryHeaderLen+len(f.Name)+len(f.Extra)+len(f.Comment)))
+	b := bytes.NewBuffer(make([]byte, 0, directoryHeaderLen+len(f.Name)+len(extraField)+len(f.Comment)))
 	_ = binary.Write(b, binary.LittleEndian, hdr)
 	b.WriteString(f.Name)
-	b.Write(f.Extra)
+	b.Write(extraField)
 	b.Write(f.Comment)
 	return b.Bytes(), nil
+}
+
+// copy of an extra block without its ZIP64 extended information records
+func withoutZip64Extra(extra []byte) []byte {
+	out := make([]byte, 0, len(extra))
+	for len(extra) >= 4 {
+		id := binary.LittleEndian.Uint16(extra)
+		size := 4 + int(binary.LittleEndian.Uint16(extra[2:]))
+		if size > len(extra) {
+			break
+		}
+		if id != zip64ExtraID {
+			out = append(out, extra[:size]...)
+		}
+		extra = extra[size:]
+	}
+	return append(out, extra...)
 }
 
 func (f *File) GetLocalHeader() ([]byte, error) {
